@@ -997,6 +997,31 @@ func (c *Ctx) noJobLost() {
 		})
 	}
 	c.mustFollowIter(fn, "result.err != nil", c.failEdges(g), anyOf(send, repush), "verdict send / heap.Push(work, result.job)", nil, 1)
+	// ... and no result is put aside before it is looked at: from the arm that
+	// receives a result every path through the iteration reaches the lookup of
+	// the result's batch (a result skipped as "stale" takes its job with it:
+	// the job is neither re-issued nor counted, and its batch never ends)
+	jrF := c.field("query", "peerWorkManager", "jobResults")
+	arms := c.selectArms(fn, func(sel *ssa.Select, st *ssa.SelectState) bool {
+		return st.Dir == types.RecvOnly && loadsField(jrF)(st.Chan)
+	}, "a job result received")
+	isBatchMap := func(v ssa.Value) bool {
+		m, ok := v.Type().Underlying().(*types.Map)
+		if !ok {
+			return false
+		}
+		p, ok := m.Elem().(*types.Pointer)
+		if !ok {
+			return false
+		}
+		n, ok := p.Elem().(*types.Named)
+		return ok && c.on(n.Obj()) == "batchProgress"
+	}
+	isLookup := func(in ssa.Instruction) bool {
+		l, ok := in.(*ssa.Lookup)
+		return ok && isBatchMap(l.X)
+	}
+	c.mustFollowIter(fn, "a job result received", arms, isLookup, "the lookup of the result's batch (currentBatches[batchNum])", nil, 1)
 	// after a re-push the query index is re-registered
 	isQueries := func(v ssa.Value) bool {
 		m, ok := v.Type().Underlying().(*types.Map)
